@@ -19,7 +19,7 @@ ASSUMPTIONS = ["a sample's cell along a feature = number of cut points below its
 EVAL_COUNTER = "fits"
 REQUIRED = {"quick": {"fits": 250, "binning_calls_checked": 5000, "masked_fits": 60, "mask_perturbations": 120,
                       "cells_compared": 1500, "active_point_queries": 4000, "active_queries_between_cuts": 300,
-                      "fits_multi_cut": 120, "cells_matched_to_leaves": 700},
+                      "fits_multi_cut": 120, "cells_matched_to_leaves": 700, "integer_query_points": 3000},
             "thorough": {"fits": 5000, "active_point_queries": 90000}}
 SHARD_TIMEOUT = {"quick": 1200, "thorough": 7000}
 
@@ -198,6 +198,36 @@ def run_case(case, ctx, st):
                                   expected="one leaf per cell")
                     break
                 seen[leaf] = cidx
+    # the same cells visited by integer-typed query arrays (counts, pixel values, ordinal codes handed over as int64 / int32):
+    # a sample's cell is given by how many cut points lie below its value, whatever the dtype the value arrives in
+    if pts:
+        ipts = []
+        for _ in range(40):
+            x = rng.integers(-6, 7, size=d)
+            if all(np.min(np.abs(cuts[f] - x[f])) >= delta for f in used):
+                ipts.append(x)
+        if ipts:
+            Qi = np.array(ipts, dtype=[np.int64, np.int32][int(rng.integers(0, 2))])
+            icells = [tuple(int(np.sum(cuts[f] < x[f])) for f in used) for x in Qi]
+            est.temperature = 1e-4
+            try:
+                Pi = np.asarray(est.predict_proba(Qi))
+                Pif = np.asarray(est.predict_proba(Qi.astype(np.float64)))
+            except Exception as e:
+                Pi = Pif = None
+                ctx.violation("cells", f"predict_proba-raises-on-integer-data/{type(e).__name__}", observed=repr(e)[:200], expected="probabilities")
+            finally:
+                est.temperature = old_t
+            if Pi is not None:
+                ctx.count("integer_query_points", len(Qi))
+                first = {}
+                for cidx, row, rowf in zip(icells, Pi, Pif):
+                    ref_row = first.setdefault(cidx, by_cell[cidx][0] if cidx in by_cell else row)
+                    if not np.all(np.isfinite(row)) or float(np.max(np.abs(row - ref_row))) > 1e-6 or float(np.max(np.abs(row - rowf))) > 1e-9:
+                        ctx.violation("cells", "integer-typed-points-not-constant-inside-cell",
+                                      observed={"cell": cidx, "row": row, "row_of_same_values_as_float": rowf, "row_of_the_cell": ref_row, "dtype": str(Qi.dtype)},
+                                      expected="the cell's prediction")
+                        break
     # find_active_points
     for q in range(20):
         m = int(rng.integers(1, 12))
